@@ -40,9 +40,14 @@ def radius_arg(r, as_str):
     return str(num(rat(v))) if as_str else num(rat(v))
 
 
+_TF = {}
+
+
 def build(shape, route, M):
     kind, p = shape
-    tf = svg.Matrix(*M)
+    # one Matrix object per transform is handed to every shape built with it (keyword and dictionary routes): a shape takes
+    # the value of the matrix it is given, it does not keep the caller's object
+    tf = _TF.setdefault(M, svg.Matrix(*M))
     if kind == "rect":
         x, y, w, h = [num(rat(v)) for v in p[:4]]
         rx, ry = p[4], p[5]
@@ -209,6 +214,15 @@ def check_case(case):
     tcls = transform_class(M)
     for route in ("kwargs", "args", "dict"):
         try:
+            # a decoy built with the same Matrix object is realised in place first; neither the caller's matrix nor the
+            # shape built next may notice
+            decoy = svg.Rect(x=1, y=2, width=3, height=4, transform=_TF.setdefault(M, svg.Matrix(*M)))
+            decoy.reify()
+            decoy *= svg.Matrix.translate(5, 5)
+            now = tuple(getattr(_TF[M], c) for c in "abcdef")
+            if now != tuple(getattr(svg.Matrix(*M), c) for c in "abcdef"):
+                dis.append({"clause": "SharedTransform", "route": route, "detail": "Rect(transform=m).reify() changed the caller's matrix m from %r to %r" % (M, now)})
+                _TF[M] = svg.Matrix(*M)
             sh = build(shape, route, M)
         except engine.CaseTimeout:
             raise
